@@ -37,20 +37,142 @@ def resize_loops():
       "invariants": ["i <= colDim - 1 && (noldcols - 1 <= i || i == colDim - 1)"],
       "assigns": ["i", "__CPROVER_object_from(gp_cs + noldcols)"], "decreases": "i + 1 - noldcols"},
     ]
-removedRow_loops = [
- {"function": HB, "loop": 0, "locals": ["j"],
-  "invariants": ["-1 <= j && j <= g_dim", "0 <= g_js && g_js <= j",
-                 "gp_bid[2 * g_js] < 0 && gp_bid[2 * g_js + 1] == g_gone",
-                 "g_dim > 0 ==> (gp_bid[2 * g_b] == v_b_info && gp_bid[2 * g_b + 1] == v_b_idx)",
-                 "gp_bid[2 * g_dim] == v_last_info && gp_bid[2 * g_dim + 1] == v_last_idx"],
-  "assigns": ["j", "__CPROVER_object_whole(gp_bid)", "__CPROVER_object_whole(gp_mat)"], "decreases": "j + 1"},
-] + resize_loops()
 
+def search_loop():   # removedRow (COLUMN) / removedCol (ROW): find the basis slot that holds the id of the removed row / column
+    return [{"function": HB, "loop": 0, "locals": ["j"],
+      "invariants": ["-1 <= j && j <= g_dim", "g_js <= j",
+                     "g_js >= 0 ==> gp_bid[g_js] == g_gone",
+                     "g_dim > 0 ==> gp_bid[g_b] == v_b",
+                     "gp_bid[g_dim] == v_blast"],
+      "assigns": ["j", "__CPROVER_object_whole(gp_bid)", "__CPROVER_object_whole(gp_mat)"], "decreases": "j + 1"}]
+
+def many_loops(arr, keepflags_loop):
+    # removedRows / removedCols: loop 0 = first branch in the text, loop 1 = second branch
+    out = []
+    for n in (0, 1):
+        inv = ["0 <= i && i <= g_n",
+               "(g_n > 0 && i <= g_x) ==> %s[g_x] == v_x" % arr,
+               "(g_n > 0 && i > g_x && g_p >= 0) ==> %s[g_p] == v_x" % arr,
+               "*gp_status == g_bstatus || *gp_status == g_NP",
+               "(g_n > 0 && i > g_x && g_p < 0 && g_xdual == g_giveup) ==> *gp_status == g_NP"]
+        if n == keepflags_loop:
+            inv += ["*gp_status == g_NP ==> (!*gp_setup && !*gp_fact)", "*gp_status != g_NP ==> (*gp_setup == g_setup && *gp_fact == g_fact)"]
+        else:
+            inv += ["!*gp_setup && !*gp_fact"]
+        out.append({"function": HB, "loop": n, "locals": ["i"], "invariants": inv,
+                    "assigns": ["i", "__CPROVER_object_whole(%s)" % arr, "*gp_status", "*gp_setup", "*gp_fact"], "decreases": "g_n - i"})
+    return out
+
+ADM = "(%s == g_PL && g_okL) || (%s == g_PU && g_okU) || (%s == g_PX && g_okX) || (%s == g_PF && g_okF)"
+def added_loops(rows):
+    # loop 0 = first branch in the text (the representation whose basis matrix grows: ids are assigned), loop 1 = the other
+    out = []
+    for n in (0, 1):
+        if rows:
+            inv = ["g_old <= i && i <= g_nr", "(g_nr > 0 && g_old <= g_r && g_r < i) ==> gp_rs[g_r] == v_exp_r"]
+            asg = ["i", "__CPROVER_object_from(gp_rs + g_old)"]
+            dec = "g_nr - i"
+        else:
+            inv = ["g_old <= i && i <= g_nc", "(g_nc > 0 && g_old <= g_c && g_c < i) ==> (%s)" % (ADM % (("gp_cs[g_c]",) * 4))]
+            asg = ["i", "__CPROVER_object_from(gp_cs + g_old)"]
+            dec = "g_nc - i"
+        if n == 0:
+            inv.append("(g_old <= g_b && g_b < i) ==> gp_bid[g_b] == g_key")
+            asg.append("__CPROVER_object_from(gp_bid + g_old)")
+        out.append({"function": HB, "loop": n, "locals": ["i"], "invariants": inv, "assigns": asg, "decreases": dec})
+    return out
+
+RIB = r"H::restoreInitialBasis\(this\)"
+def restore_loops():
+    # restoreInitialBasis: COLUMN: rows (+ids), cols;  ROW: rows, cols (+ids)
+    def rows(n, ids, loc):
+        inv = ["0 <= i && i <= g_nr", "(g_nr > 0 && g_r < i) ==> gp_rs[g_r] == v_exp_r"]
+        asg = ["i", "__CPROVER_object_whole(gp_rs)"]
+        if ids:
+            inv.append("(g_rep > 0 && g_dim > 0 && g_b < i) ==> gp_bid[g_b] == g_key"); asg.append("__CPROVER_object_whole(gp_bid)")
+        return {"function": RIB, "loop": n, "locals": [["i", loc]], "invariants": inv, "assigns": asg, "decreases": "g_nr - i"}
+    def cols(n, ids, loc):
+        inv = ["0 <= i && i <= g_nc", "(g_nc > 0 && g_c < i) ==> (%s)" % (ADM % (("gp_cs[g_c]",) * 4))]
+        asg = ["i", "__CPROVER_object_whole(gp_cs)"]
+        if ids:
+            inv.append("(g_rep < 0 && g_dim > 0 && g_b < i) ==> gp_bid[g_b] == g_key"); asg.append("__CPROVER_object_whole(gp_bid)")
+        return {"function": RIB, "loop": n, "locals": [["i", loc]], "invariants": inv, "assigns": asg, "decreases": "g_nc - i"}
+    return [rows(0, True, "1::1::1::i"), cols(1, False, "1::1::2::i"), rows(2, False, "1::2::1::i"), cols(3, True, "1::2::2::i")]
+
+S_removedCol = S("Basis_removedCol.inc", CHG, r"void\s+SPxBasisBase<R>::removedCol\s*\(\s*int\s+i\s*\)",
+                 [r"thedesc\.colStatus\(i\)\s*=\s*thedesc\.colStatus\(theLP->nCols\(\)\);", r"reDim\(\);", r"theLP->has\(SPxColId\(id\)\)"])
+S_removedRows = S("Basis_removedRows.inc", CHG, r"void\s+SPxBasisBase<R>::removedRows\s*\(\s*const\s+int\s+perm\[\]\s*\)",
+                  [r"thedesc\.rowStatus\(perm\[i\]\)\s*=\s*thedesc\.rowStatus\(i\);", r"reDim\(\);", r"int\s+n\s*=\s*thedesc\.nRows\(\);"])
+S_removedCols = S("Basis_removedCols.inc", CHG, r"void\s+SPxBasisBase<R>::removedCols\s*\(\s*const\s+int\s+perm\[\]\s*\)",
+                  [r"thedesc\.colStatus\(perm\[i\]\)\s*=\s*thedesc\.colStatus\(i\);", r"reDim\(\);", r"int\s+n\s*=\s*thedesc\.nCols\(\);"])
+S_addedRows = S("Basis_addedRows.inc", CHG, r"void\s+SPxBasisBase<R>::addedRows\s*\(\s*int\s+n\s*\)",
+                [r"thedesc\.rowStatus\(i\)\s*=\s*dualRowStatus\(i\);", r"baseId\(i\)\s*=\s*theLP->SPxLPBase<R>::rId\(i\);", r"reDim\(\);", r"loadMatrixVecs\(\);"])
+S_addedCols = S("Basis_addedCols.inc", CHG, r"void\s+SPxBasisBase<R>::addedCols\s*\(\s*int\s+n\s*\)",
+                [r"thedesc\.colStatus\(i\)\s*=\s*primalColStatus\(i,\s*theLP\);", r"baseId\(i\)\s*=\s*theLP->SPxLPBase<R>::cId\(i\);", r"reDim\(\);", r"loadMatrixVecs\(\);"])
+S_restore = S("Basis_restoreInitialBasis.inc", CHG, r"void\s+SPxBasisBase<R>::restoreInitialBasis\s*\(\s*\)",
+              [r"thedesc\.rowStatus\(i\)\s*=\s*dualRowStatus\(i\);", r"thedesc\.colStatus\(i\)\s*=\s*primalColStatus\(i,\s*theLP\);", r"setStatus\(REGULAR\);"])
+S_changedRow = S("Basis_changedRow.inc", CHG, r"void\s+SPxBasisBase<R>::changedRow\s*\(\s*int\s*/\*row\*/\s*\)", [r"invalidate\(\);\s*restoreInitialBasis\(\);"])
+S_changedCol = S("Basis_changedCol.inc", CHG, r"void\s+SPxBasisBase<R>::changedCol\s*\(\s*int\s*/\*col\*/\s*\)", [r"invalidate\(\);\s*restoreInitialBasis\(\);"])
+S_changedElement = S("Basis_changedElement.inc", CHG, r"void\s+SPxBasisBase<R>::changedElement\s*\(\s*int\s*/\*row\*/\s*,\s*int\s*/\*col\*/\s*\)", [r"invalidate\(\);\s*restoreInitialBasis\(\);"])
+
+ALL_LOOPS_UNWOUND = lambda fns: {"unwind": 10, "unwind_loops": [{"function": f, "loop": n} for f, k in fns for n in range(k)]}
+MANY = {"harness": "h_removedMany", "enforce": "w_removedMany"}
+ADDED = {"harness": "h_added", "enforce": "w_added"}
+CHANGED = {"harness": "h_changed", "enforce": "w_changed"}
+def variants(name, function, slices, loops, mutants, count_mutants, loopfns, extra, defines=None, minob=100, count=True):
+    out = [inst(name, function, slices, loops + resize_loops(), mutants, minob, extra=extra, defines=defines)]
+    if count:
+        e = dict(extra); e.update(ALL_LOOPS_UNWOUND(loopfns + [(RSZ, 2)]))
+        d = dict(defines or {}); d["INST_" + name] = ""; d["COUNTV"] = ""
+        c = inst(name + "_count", function + "  [explicit basic count, all loops unwound completely, <= 8 rows and columns]", slices, [], count_mutants, minob, extra=e, defines=d)
+        del c["defines"]["INST_" + name + "_count"]
+        out.append(c)
+    return out
+
+M_rr = [{"name": "column_negation_lost", "slice": "Basis_removedRow.inc", "find": "if(!theLP->isBasic(thedesc.rowStatus(i)))", "replace": "if(theLP->isBasic(thedesc.rowStatus(i)))"},
+        {"name": "row_negation_added", "slice": "Basis_removedRow.inc", "find": "   if(theLP->rep() == SPxSolverBase<R>::ROW)\n   {\n      if(theLP->isBasic(thedesc.rowStatus(i)))", "replace": "   if(theLP->rep() == SPxSolverBase<R>::ROW)\n   {\n      if(!theLP->isBasic(thedesc.rowStatus(i)))"},
+        {"name": "moves_wrong_entry", "slice": "Basis_removedRow.inc", "find": "thedesc.rowStatus(i) = thedesc.rowStatus(theLP->nRows());", "replace": "thedesc.rowStatus(i) = thedesc.rowStatus(theLP->nRows() - 1);"},
+        {"name": "id_not_compacted", "slice": "Basis_removedRow.inc", "find": "baseId(j) = baseId(theLP->dim());", "replace": "baseId(j) = baseId(j);"},
+        {"name": "callee_reDim_keeps_flags", "slice": "Basis_reDim.inc", "find": "matrixIsSetup = false;\n      factorized    = false;", "replace": ""}]
+M_rc = [{"name": "column_negation_added", "slice": "Basis_removedCol.inc", "find": "      if(theLP->isBasic(thedesc.colStatus(i)))\n         setStatus(NO_PROBLEM);", "replace": "      if(!theLP->isBasic(thedesc.colStatus(i)))\n         setStatus(NO_PROBLEM);"},
+        {"name": "row_negation_lost", "slice": "Basis_removedCol.inc", "find": "if(!theLP->isBasic(thedesc.colStatus(i)))", "replace": "if(theLP->isBasic(thedesc.colStatus(i)))"},
+        {"name": "moves_row_entry", "slice": "Basis_removedCol.inc", "find": "thedesc.colStatus(i) = thedesc.colStatus(theLP->nCols());", "replace": "thedesc.colStatus(i) = thedesc.rowStatus(theLP->nCols());"},
+        {"name": "scan_skips_last", "slice": "Basis_removedCol.inc", "find": "for(int j = theLP->dim(); j >= 0; --j)", "replace": "for(int j = theLP->dim() - 1; j >= 0; --j)"}]
+M_rrs = [{"name": "column_negation_lost", "slice": "Basis_removedRows.inc", "find": "if(!theLP->isBasic(thedesc.rowStatus(i)))", "replace": "if(theLP->isBasic(thedesc.rowStatus(i)))"},
+         {"name": "move_reversed", "slice": "Basis_removedRows.inc", "find": "            else                            // row was moved\n               thedesc.rowStatus(perm[i]) = thedesc.rowStatus(i);\n         }\n      }\n   }\n\n   reDim();", "replace": "            else                            // row was moved\n               thedesc.rowStatus(i) = thedesc.rowStatus(perm[i]);\n         }\n      }\n   }\n\n   reDim();"},
+         {"name": "skip_first", "slice": "Basis_removedRows.inc", "find": "      factorized    = false;\n      matrixIsSetup = false;\n\n      for(i = 0; i < n; ++i)", "replace": "      factorized    = false;\n      matrixIsSetup = false;\n\n      for(i = 1; i < n; ++i)"}]
+M_rcs = [{"name": "column_negation_added", "slice": "Basis_removedCols.inc", "find": "            if(theLP->isBasic(thedesc.colStatus(i)))\n               setStatus(NO_PROBLEM);", "replace": "            if(!theLP->isBasic(thedesc.colStatus(i)))\n               setStatus(NO_PROBLEM);"},
+         {"name": "row_negation_lost", "slice": "Basis_removedCols.inc", "find": "if(!theLP->isBasic(thedesc.colStatus(i)))", "replace": "if(theLP->isBasic(thedesc.colStatus(i)))"},
+         {"name": "moves_into_rows", "slice": "Basis_removedCols.inc", "find": "         else                        // column was potentially moved\n            thedesc.colStatus(perm[i]) = thedesc.colStatus(i);", "replace": "         else                        // column was potentially moved\n            thedesc.rowStatus(perm[i]) = thedesc.colStatus(i);"}]
+M_ar = [{"name": "new_rows_get_col_status", "slice": "Basis_addedRows.inc", "find": "            thedesc.rowStatus(i) = dualRowStatus(i);\n            baseId(i)", "replace": "            thedesc.rowStatus(i) = dualColStatus(i);\n            baseId(i)"},
+        {"name": "skip_first_new_row", "slice": "Basis_addedRows.inc", "find": "         for(int i = theLP->nRows() - n; i < theLP->nRows(); ++i)\n            thedesc.rowStatus(i) = dualRowStatus(i);", "replace": "         for(int i = theLP->nRows() - n + 1; i < theLP->nRows(); ++i)\n            thedesc.rowStatus(i) = dualRowStatus(i);"},
+        {"name": "optimal_stays_optimal", "slice": "Basis_addedRows.inc", "find": "      case OPTIMAL:\n      case INFEASIBLE:\n         setStatus(DUAL);", "replace": "      case INFEASIBLE:\n         setStatus(DUAL);"},
+        {"name": "callee_dual_status_swapped", "slice": "dualRowStatus.inc", "find": "return Desc::D_ON_LOWER;", "replace": "return Desc::D_ON_UPPER;"}]
+M_ar_count = [{"name": "new_rows_nonbasic", "slice": "Basis_addedRows.inc", "find": "            thedesc.rowStatus(i) = dualRowStatus(i);\n            baseId(i)", "replace": "            thedesc.rowStatus(i) = primalColStatus(i, theLP);\n            baseId(i)"},
+              M_ar[1]]
+M_ac = [{"name": "new_cols_basic", "slice": "Basis_addedCols.inc", "find": "            thedesc.colStatus(i) = primalColStatus(i, theLP);\n            baseId(i)", "replace": "            thedesc.colStatus(i) = dualColStatus(i);\n            baseId(i)"},
+        {"name": "ids_are_rows", "slice": "Basis_addedCols.inc", "find": "baseId(i) = theLP->SPxLPBase<R>::cId(i);", "replace": "baseId(i) = theLP->SPxLPBase<R>::rId(i);"},
+        {"name": "callee_upper_at_infinity", "slice": "primalColStatus.inc", "find": "   else if(theLP->lower(i) > R(-infinity))\n      return SPxBasisBase<R>::Desc::P_ON_LOWER;", "replace": "   else if(theLP->lower(i) > R(-infinity))\n      return SPxBasisBase<R>::Desc::P_ON_UPPER;"}]
+M_ch = lambda nm: [{"name": "no_restore", "slice": "Basis_%s.inc" % nm, "find": "restoreInitialBasis();", "replace": ""},
+                   {"name": "callee_cols_basic", "slice": "Basis_restoreInitialBasis.inc", "find": "      for(int i = 0; i < theLP->nCols(); ++i)\n         thedesc.colStatus(i) = primalColStatus(i, theLP);", "replace": "      for(int i = 0; i < theLP->nCols(); ++i)\n         thedesc.colStatus(i) = dualColStatus(i);"},
+                   {"name": "callee_ids_skip_row0", "slice": "Basis_restoreInitialBasis.inc", "find": "      for(int i = 0; i < theLP->nRows(); ++i)\n      {\n         thedesc.rowStatus(i) = dualRowStatus(i);\n         baseId(i)", "replace": "      for(int i = 1; i < theLP->nRows(); ++i)\n      {\n         thedesc.rowStatus(i) = dualRowStatus(i);\n         baseId(i)"}]
+U = {"UNIQUE_GONE_ID": ""}
 insts = [
- inst("removedRow", "SPxBasisBase<R>::removedRow(int i)", [S_removedRow], removedRow_loops, [
-   {"name": "column_negation_lost", "slice": "Basis_removedRow.inc", "find": "if(!theLP->isBasic(thedesc.rowStatus(i)))", "replace": "if(theLP->isBasic(thedesc.rowStatus(i)))"},
- ], 100, defines={"UNIQUE_GONE_ID": "", "GONE_SIGN": "(-1)"}),
+ inst("removedRow", "SPxBasisBase<R>::removedRow(int i)", [S_removedRow], search_loop() + resize_loops(), M_rr, 100, defines=U),
+ inst("removedCol", "SPxBasisBase<R>::removedCol(int i)", [S_removedCol], search_loop() + resize_loops(), M_rc, 100, defines=U),
 ]
+insts += variants("removedRows", "SPxBasisBase<R>::removedRows(const int perm[])", [S_removedRows], many_loops("gp_rs", 0), M_rrs, M_rrs[:2], [(HB, 2)], MANY, {"PERM_INVARIANT": ""})
+insts += variants("removedCols", "SPxBasisBase<R>::removedCols(const int perm[])", [S_removedCols], many_loops("gp_cs", 0), M_rcs, M_rcs[:2], [(HB, 2)], MANY, {"PERM_INVARIANT": ""})
+insts += variants("addedRows", "SPxBasisBase<R>::addedRows(int n)", [S_addedRows], added_loops(True), M_ar, M_ar_count, [(HB, 2)], ADDED)
+insts += variants("addedCols", "SPxBasisBase<R>::addedCols(int n)", [S_addedCols], added_loops(False), M_ac, M_ac[:1], [(HB, 2)], ADDED)
+for nm, fn in (("changedRow", "SPxBasisBase<R>::changedRow(int)"), ("changedCol", "SPxBasisBase<R>::changedCol(int)"), ("changedElement", "SPxBasisBase<R>::changedElement(int, int)")):
+    sl = {"changedRow": S_changedRow, "changedCol": S_changedCol, "changedElement": S_changedElement}[nm]
+    insts += variants(nm, fn + " -> invalidate(), restoreInitialBasis()", [sl, S_restore], restore_loops(), M_ch(nm), M_ch(nm)[1:2], [(RIB, 4)], CHANGED, count=(nm == "changedRow"))
+    # no reSize in these: drop the reSize loop contracts
+for i in insts:
+    if i["name"].startswith("changed"):
+        i["loops"] = [l for l in i["loops"] if l["function"] != RSZ]
+        if "unwind_loops" in i: i["unwind_loops"] = [l for l in i["unwind_loops"] if l["function"] != RSZ]
 doc = {
  "property": ["C04"],
  "desc": "basis-maintenance hooks of spxchangebasis.hpp: after the LP changed, a kept basis has exactly one basic variable per row (explicit count over <= CAP entries), the descriptor and basis ids moved as the LP moved its rows/columns (ghost index), otherwise the basis is given up",
